@@ -324,7 +324,19 @@ def conforming(rng, nfuncs=None, depth=2, recursion=True):
     for i in range(nfuncs):
         nargs = rng.randrange(0, 4)
         saved = rng.sample(SAVED, rng.randrange(0, 4))
-        fns.append(Fn("fn%d" % i, nargs, saved, True, 0))
+        f = Fn("fn%d" % i, nargs, saved, True, 0)
+        # thin wrappers: the return value reaches a0 without an instruction of the function writing a0
+        r = rng.random()
+        f.kind = "ecallwrap" if r < 0.12 else "forward" if r < 0.24 and i > 0 else "identity" if r < 0.3 else "normal"
+        if f.kind == "ecallwrap":
+            f.nargs = 0
+        if f.kind == "identity":
+            f.nargs = 1
+        if f.kind == "forward":
+            f.target = rng.choice(fns)
+            f.nargs = min(f.nargs, 1)
+        f.reads_a0 = False if f.kind == "ecallwrap" else f.target.reads_a0 if f.kind == "forward" else True
+        fns.append(f)
     lines = []
     lab = [0]
 
@@ -370,6 +382,8 @@ def conforming(rng, nfuncs=None, depth=2, recursion=True):
                     for a in range(callee.nargs):
                         if a > 0:
                             out.append("li a%d, %d" % (a, rng.randrange(0, 9)))
+                    if not callee.reads_a0:
+                        out += ["li a7, 1", "ecall"]      # the current a0 is used (printed) before a0 is redefined by the call
                     out.append(rng.choice(["jal %s", "call %s", "jal ra, %s"]) % callee.name)
             else:
                 num, sig = rng.choice([(1, 1), (11, 1), (34, 1), (4, 1)])
@@ -383,6 +397,8 @@ def conforming(rng, nfuncs=None, depth=2, recursion=True):
     for callee in fns:          # every function is called at least once (else it is not a function)
         for a in range(1, callee.nargs):
             out.append("li a%d, %d" % (a, rng.randrange(0, 9)))
+        if not callee.reads_a0:
+            out += ["li a7, 1", "ecall"]
         out.append(rng.choice(["jal %s", "call %s", "jal ra, %s"]) % callee.name)
     body(None, [], depth, out)
     out += ["li a7, 1", "ecall"]          # print a0: the last value computed is used
@@ -391,6 +407,22 @@ def conforming(rng, nfuncs=None, depth=2, recursion=True):
     lines += out
     for fn in fns:
         out = ["%s:" % fn.name]
+        if fn.kind == "ecallwrap":
+            lines += out + ["li a7, %d" % rng.choice([5, 12]), "ecall", "ret"]
+            continue
+        if fn.kind == "identity":
+            lines += out + ["ret"]
+            continue
+        if fn.kind == "forward":
+            fr = 16
+            out += ["addi sp, sp, -%d" % fr, "sw ra, 12(sp)"]
+            for a in range(1, fn.target.nargs):
+                out.append("li a%d, %d" % (a, rng.randrange(0, 9)))
+            if fn.reads_a0 != fn.target.reads_a0:
+                raise AssertionError
+            out += ["jal %s" % fn.target.name, "lw ra, 12(sp)", "addi sp, sp, %d" % fr, "ret"]
+            lines += out
+            continue
         slots = ["ra"] + fn.saved
         frame = 4 * len(slots) + 4 * rng.randrange(0, 3)
         out.append("addi sp, sp, -%d" % frame)
@@ -419,6 +451,9 @@ def inject(rng, lines, kind):
     L = list(lines)
     fn_starts = [i for i, l in enumerate(L) if l.startswith("fn") and l.endswith(":")]
     main_end = fn_starts[0] if fn_starts else len(L)
+    framed = [i for i in fn_starts if i + 1 < len(L) and L[i + 1].startswith("addi sp, sp, -")]
+    if kind in ("overwrite-callee-saved-register", "invalid-stack-offset-usage"):
+        fn_starts = framed
     if kind == "save-to-zero":
         i = rng.randrange(1, main_end - 1)
         L.insert(i, "addi zero, a0, 1")
@@ -449,9 +484,17 @@ def inject(rng, lines, kind):
             return None
         i = rng.choice(calls)
         L.insert(i, "li t4, 5")
+        if rng.random() < 0.5:           # the first read is a read-modify-write of the same register
+            first = rng.choice(["addi t4, t4, 1", "slli t4, t4, 1", "add t4, t4, a0", "sub t4, a0, t4"])
+            L[i + 2:i + 2] = [first, "add a0, a0, t4"]
+            return L, "invalid-use-after-call", first
         L.insert(i + 2, "add a0, a0, t4")
         return L, "invalid-use-after-call", "add a0, a0, t4"
     if kind == "invalid-use-before-assignment":
+        if rng.random() < 0.5:
+            first = rng.choice(["addi t5, t5, 3", "xori t5, t5, -1", "add t5, a0, t5", "neg t5, t5"])
+            L[2:2] = [first, "add a0, a0, t5"]
+            return L, "invalid-use-before-assignment", first
         L.insert(2, "add a0, a0, t5")
         return L, "invalid-use-before-assignment", "add a0, a0, t5"
     if kind == "overwrite-callee-saved-register" and fn_starts:
